@@ -42,7 +42,7 @@ else:
     results = {}
     for c in checks:
         t0 = time.time()
-        rc3, out3 = run('./run.sh %s quick' % c, cwd='/verif', timeout=3000, extra={'VERIF_REPO': wt})
+        rc3, out3 = run('./run.sh %s quick' % c, cwd=os.environ.get('VROOT', '/verif'), timeout=3000, extra={'VERIF_REPO': wt})
         viol = [l for l in out3.split('\n') if l.startswith('VIOLATION')]
         kinds = sorted(set(l.strip().split(' clause=')[0].replace('kind=', '') for l in out3.split('\n') if l.strip().startswith('kind=')))
         results[c] = {'exit': rc3, 'violations': len(viol), 'kinds': kinds[:8], 'wall_s': round(time.time() - t0, 1), 'cmd': 'VERIF_REPO=%s ./run.sh %s quick' % (wt, c)}
